@@ -45,6 +45,29 @@ PROPS['C13'] = {
     'assumptions': ['std::net address text formatting/parsing is exercised, not modelled'],
 }
 
+PROPS['C12'] = {
+    'level': 'proof',
+    'technique': 'Lean 4 theorems on a byte-list model of uri.rs (representation invariant, re-parse identity for join/parent, '
+                 'equality laws, relative_to/join inverse) + exhaustive small-alphabet differential check against the real parser',
+    'claim': 'Lean 4 proofs for all byte strings and all valid URIs: from_bytes accepts exactly the values satisfying an explicit '
+             'representation invariant and keeps the text; accessors recompose; characters/segments are legal; == is an equivalence '
+             'that hashes consistently; join and parent results re-parse to the identical value (same authority offsets); a non-empty '
+             'relative_to path joins back to the original. HTTPS: parse/recompose/equivalence/hash/join. Proved on the model; the '
+             'remaining laws of the statement (relative_to empty-path characterisation, parent-of irreflexive/transitive/congruent, '
+             'join beneath base, parent is a parent, Https::parent) are decided on the implementation by the Lean Spec oracle over the '
+             'exhaustive scope and are not yet theorems.',
+    'note': 'Model is hand-written (List Nat bytes); tie = differential run over every rsync:// and https:// string over {a,A,/,.,%,space} '
+            'up to length 6 (thorough 7), all pairs/joins/triples of accepted ones, random long URIs. The character class, the '
+            'eq_module shape and the Https::join slash condition are regenerated from src/uri.rs on every run. serde wrappers not modelled.',
+    'shards': {'quick': 4, 'thorough': 16},
+    'budget': {'quick': 600, 'thorough': 7200},
+    'rule': 'exhaustive strings over a 6-letter alphabet after the scheme (len<=6 quick, 7 thorough), 256-byte sweeps at 8 positions, '
+            'all pairs of accepted URIs (len<=4/5) and of a 60-URI case/nesting family for ==/hash/relative_to/is_parent_of, joins with '
+            'all arguments of length<=3 (4) over {a,A,/,.}, law triples on the implementation, random long URIs.',
+    'trusted_base': ['bytes::Bytes slicing and eq_ignore_ascii_case modelled as list take/drop and map toLower'],
+    'assumptions': ['Hash is modelled as the byte sequence fed to the hasher'],
+}
+
 NOT_APPLICABLE = {
 }
 for _i in range(1, 18):
